@@ -173,6 +173,73 @@ func genC06(seed int64, tier string) []caseOut {
 			NonTri: fmt.Sprintf("%x", hh[:8]),
 		})
 	}
+	// a Go string handed over as the value is the JSON string, not the JSON text it may spell: no
+	// container at top level, so there is nothing to hash
+	for k, gs := range []string{"[]", "{}", `{"a":1}`, `[1,2]`, " [] ", `"x"`, "plain"} {
+		code := []uint{18, 19}[k%2]
+		h, herr := hashing.CalculateModelMultihash(gs, code)
+		id, iderr := "", fmt.Errorf("not computed")
+		text, _ := json.Marshal(gs)
+		var checks []string
+		if herr == nil { // whatever came out must at least not validate the container the string spells
+			err := hashing.IsValidModelMultihash([]byte(gs), h)
+			c, cerr := hashing.GetMultihashCode(h)
+			cs := "None"
+			if cerr == nil {
+				cs = "(Some " + cZu(c) + ")"
+			}
+			checks = append(checks, fmt.Sprintf("(mk_vcheck %s %s %s false %s %s %s)", cStr(gs), cStr(h), cBool(err == nil), cs,
+				cBool(hashing.IsComputedUsingMultihashAlgorithms(h, []uint{18, 19})), cBool(hashing.IsComputedUsingMultihashAlgorithms(h, []uint{19}))))
+		}
+		hh := sha256.Sum256([]byte("gostring" + gs))
+		out = append(out, caseOut{
+			Coq:    fmt.Sprintf("(mk_c06 %s %s %s %s %s)", cStr(string(text)), cZu(uint64(code)), optStr(h, herr), optStr(id, iderr), cList(checks)),
+			Rec:    map[string]interface{}{"go_string_value": gs, "code": code, "impl_hash": h, "impl_hash_err": herr != nil},
+			Label:  "go-string-at-top-level",
+			NonTri: fmt.Sprintf("%x", hh[:8]),
+		})
+	}
+	// characters beyond the basic plane, in every plane class, written literally and as escaped
+	// surrogate pairs: one value, one hash; neighbouring planes are other values
+	for k, cp := range []rune{0x10000, 0x10BB7, 0x1F600, 0x20000, 0x20BB7, 0x2FFFF, 0x30000, 0xE0100, 0xF0000, 0x100000, 0x10FFFF} {
+		code := []uint{18, 19}[k%2]
+		esc := func(c rune) string {
+			c -= 0x10000
+			return fmt.Sprintf(`\u%04x\u%04X`, 0xD800+(c>>10), 0xDC00+(c&0x3FF))
+		}
+		lit := `{"k":"a` + string(cp) + `z","` + string(cp) + `":1}`
+		text := `{"k":"a` + esc(cp) + `z","` + esc(cp) + `":1}`
+		h, herr := hashing.CalculateModelMultihash([]byte(text), code)
+		var checks []string
+		if herr == nil {
+			other := cp ^ 0x10000 // the same offset in the neighbouring plane
+			if other < 0x10000 || other > 0x10FFFF {
+				other = cp ^ 0x400
+			}
+			for _, v := range []struct {
+				vtext  string
+				expect bool
+			}{{lit, true}, {text, true}, {`{"` + string(cp) + `":1,"k":"a` + string(cp) + `z"}`, true},
+				{`{"k":"a` + string(other) + `z","` + string(other) + `":1}`, false}, {`{"k":"a` + esc(other) + `z","` + esc(other) + `":1}`, false}} {
+				err := hashing.IsValidModelMultihash([]byte(v.vtext), h)
+				c, cerr := hashing.GetMultihashCode(h)
+				cs := "None"
+				if cerr == nil {
+					cs = "(Some " + cZu(c) + ")"
+				}
+				checks = append(checks, fmt.Sprintf("(mk_vcheck %s %s %s %s %s %s %s)", cStr(v.vtext), cStr(h), cBool(err == nil), cBool(v.expect), cs,
+					cBool(hashing.IsComputedUsingMultihashAlgorithms(h, []uint{18, 19})), cBool(hashing.IsComputedUsingMultihashAlgorithms(h, []uint{19}))))
+			}
+		}
+		id, iderr := docutil.CalculateID("did:ns", []byte(text), code)
+		hh := sha256.Sum256([]byte("plane" + text))
+		out = append(out, caseOut{
+			Coq:    fmt.Sprintf("(mk_c06 %s %s %s %s %s)", cStr(text), cZu(uint64(code)), optStr(h, herr), optStr(id, iderr), cList(checks)),
+			Rec:    map[string]interface{}{"value": text, "code_point": fmt.Sprintf("U+%X", cp), "code": code, "impl_hash": h, "impl_hash_err": herr != nil},
+			Label:  "supplementary-plane-escapes",
+			NonTri: fmt.Sprintf("%x", hh[:8]),
+		})
+	}
 	for i := 0; i < n; i++ {
 		var v *jv
 		if r.Intn(5) == 0 {
@@ -542,6 +609,31 @@ func genC04(seed int64, tier string) []caseOut {
 			Label:  fmt.Sprintf("chain:%s,algs-%v,code-%d", kinds[0], algs, code),
 			NonTri: fmt.Sprintf("%x", hh[:8]),
 		})
+	}
+	// requests that are no link of any chain: a reveal value in another spelling (decodes to the same
+	// octets), the reveal value of another key than the one that signed, a truncated digest - the
+	// accessors report neither a reveal value nor a next commitment for them (they read anchored
+	// operations, i.e. parse in batch mode)
+	for k, typ := range []string{"update", "recover", "deactivate"} {
+		for m, mut := range []string{"reveal_respelled", "reveal_substituted", "reveal_truncated_digest", "reveal_unconfigured_alg"} {
+			base := baseProtocol(r)
+			base.MultihashAlgorithms = []uint{18}
+			base.MaxOperationHashLength = 200
+			d := &didState{r: r, cfg: base, code: 18, kinds: []string{keyKinds[(k+m)%len(keyKinds)]}}
+			cfg := base
+			d.buildOp("create", "", 1000, &cfg)
+			b := d.buildOp(typ, mut, 1001, &cfg)
+			p := operationparser.New(cfg)
+			_, rerr := p.GetRevealValue(b.bytes)
+			_, nerr := p.GetCommitment(b.bytes)
+			hh := sha256.Sum256(b.bytes)
+			out = append(out, caseOut{
+				Coq:    fmt.Sprintf("(mk_c04refuse %d%%nat %s %s)", 10*k+m, cBool(rerr != nil), cBool(nerr != nil)),
+				Rec:    map[string]interface{}{"type": typ, "what": mut, "request": string(b.bytes), "reveal_refused": rerr != nil, "commitment_refused": nerr != nil},
+				Label:  "not-a-link:" + typ + ":" + mut,
+				NonTri: fmt.Sprintf("%x", hh[:8]),
+			})
+		}
 	}
 	// chains built by the library's own client and builders, incl. a client that switches to the
 	// other configured hash algorithm after the create
